@@ -349,7 +349,8 @@ class C10(Check):
     pid = "C10"
     title = "Contracts survive serialisation to dictionaries, strings and files"
     level_text = ('Lean theorems machine_roundtrip / fromDict_wf (exact dictionary round trip incl. outputs), round4_close / round4_idem / '
-                  'round4_digits / round4_neg (the %.4g rounding on all rationals) and fold_eq_sound / fold_abs_sound / fold_abs0_sound / '
+                  'round4_digits / round4_neg (the %.4g rounding on all rationals), readNum_fmt4g / fmt4g_round4 / fmt4g_readNum_fmt4g (the printed numeral, '
+                  'read back as a decimal, IS the rounded value, in fixed and scientific notation; printing is stable under its own rounding) and fold_eq_sound / fold_abs_sound / fold_abs0_sound / '
                   'folds_sound (the printer\'s pair folding preserves meaning for exactly opposite pairs, whole loop) about the executable '
                   'model of to_machine_dict / from_dict / _number_to_string / _lhs_str / polyhedral_term_list_to_strings / to_str_list; '
                   'tied to the code by exact string equality of to_str_list, exact equality of the dictionary and of its round trip, and '
